@@ -143,6 +143,33 @@ type vfE1 struct {
 	NoRead  [2]bool      `json:"noread,omitempty"` // side does not run readers (accept loop still runs unless NoAccept)
 	NoAcc   [2]bool      `json:"noaccept,omitempty"`
 	RdBuf   int          `json:"rdbuf,omitempty"` // read buffer size (0 = 128 KiB)
+	// SeqPreset != 0: before the actions run, every stream the scenario writes on is opened on
+	// both sides and its SSN / MID cursors (sender and receiver) are set to this value (the
+	// state an association is in after that many messages), e.g. just below the 16/32-bit wrap
+	SeqPreset uint32 `json:"seqpreset,omitempty"`
+}
+
+// vfPresetSeq pre-advances the SSN/MID cursors of every stream the scenario writes on.
+func vfPresetSeq(s *vfSim, acts []vfAct, seqBase uint32) {
+	seen := map[[2]int]bool{}
+	for _, a := range acts {
+		k := [2]int{a.Side, a.SID}
+		if a.Kind != "write" || seen[k] {
+			continue
+		}
+		seen[k] = true
+		hs, err := s.stream(a.Side, uint16(a.SID), PayloadTypeWebRTCBinary)
+		hr, err2 := s.stream(1-a.Side, uint16(a.SID), PayloadTypeWebRTCBinary)
+		if err != nil || err2 != nil {
+			continue
+		}
+		hs.s.lock.Lock()
+		hs.s.sequenceNumber, hs.s.nextOrderedMID, hs.s.nextUnorderedMID = uint16(seqBase), seqBase, seqBase
+		hs.s.lock.Unlock()
+		hr.s.lock.Lock()
+		hr.s.reassemblyQueue.nextSSN, hr.s.reassemblyQueue.nextMID = uint16(seqBase), seqBase
+		hr.s.lock.Unlock()
+	}
 }
 
 type vfReadRec struct {
